@@ -53,8 +53,8 @@ type blockstore struct {
 }
 
 func (bs *blockstore) Put(block ipld.Block) error {
-	bs.RLock()
-	defer bs.RUnlock()
+	bs.Lock()
+	defer bs.Unlock()
 
 	_, ok := bs.blks[block.Link().String()]
 	if ok {
@@ -68,20 +68,27 @@ func (bs *blockstore) Put(block ipld.Block) error {
 }
 
 func (bs *blockstore) Get(link ipld.Link) (ipld.Block, bool, error) {
-	bs.Lock()
-	defer bs.Unlock()
+	bs.RLock()
+	defer bs.RUnlock()
 	return bs.blockreader.Get(link)
 }
 
 func (bs *blockstore) Iterator() iter.Seq2[ipld.Block, error] {
-	bs.Lock()
-	defer bs.Unlock()
 	return func(yield func(ipld.Block, error) bool) {
-		for _, k := range bs.keys {
-			v, ok := bs.blks[k]
+		// iterate over a snapshot so the lock is not held while yielding
+		bs.RLock()
+		keys := make([]string, len(bs.keys))
+		copy(keys, bs.keys)
+		blks := make([]ipld.Block, 0, len(keys))
+		for _, k := range keys {
+			blks = append(blks, bs.blks[k])
+		}
+		bs.RUnlock()
+
+		for i, v := range blks {
 			var err error
-			if !ok {
-				err = fmt.Errorf("missing block for key: %s", k)
+			if v == nil {
+				err = fmt.Errorf("missing block for key: %s", keys[i])
 			}
 			if !yield(v, err) {
 				return
